@@ -11,7 +11,7 @@ from ..flow import EMPTY, BasePolicy, TagFlow, path_of
 from ..model import AnalysisError, FunctionInfo, bind_args
 from ..roles import roles_of
 from ..symb import Translator, Untranslatable, is_zero
-from ..terms import call_name, canon, const_num, dotted, match_sqrt, match_square, norm_stmt, state_key
+from ..terms import call_name, canon, conjuncts, const_num, dotted, match_sqrt, match_square, norm_stmt, state_key
 from .common import iter_stores, kw, reaching_assignments, store_base
 
 EXPLANATION = (
@@ -379,6 +379,16 @@ def check(ctx):
     ctx.rule("R4", "acquisition = GP mean - sqrt(beta_t) * GP sd with the documented schedule", floor=3, policy="degrade")
     _lcb_rules(ctx, prog, R)
 
+    # ------------------------------------------------------------------ R6
+    ctx.rule("R6", "the log's high-water mark seen by the selector advances with every recorded row, bounded only by the live capacity", floor=2)
+    from .c12 import high_water_rule
+
+    high_water_rule(ctx, prog, R)
+
+    # ------------------------------------------------------------------ R7
+    ctx.rule("R7", "every incumbent move leaves the re-centring request (reset_gp) set when the step returns", floor=2)
+    _recentre_rule(ctx, prog, R)
+
     ctx.assume("gpyreg's s2 is a noise variance (read in the installed gpyreg sources)")
     ctx.assume("np.argsort sorts ascending")
 
@@ -392,6 +402,121 @@ def _sink(ctx, fn, node, what, tags):
         ctx.fail(fn, node, "a standard deviation reaches a GP noise-variance (s2) sink unsquared", construct=what)
     else:
         ctx.fail(fn, node, "the unit of the value reaching a GP noise-variance (s2) sink cannot be established as 'logged SD squared'", construct=what)
+
+
+class _MovePolicy(BasePolicy):
+    """must-facts: NM on ``$nm`` = the incumbent has not moved in this call; MI on a boolean (local flag or
+    self.reset_gp) = 'moved implies this boolean is true'."""
+
+    row_select_preserves = False
+
+    def __init__(self, prog, fn, upd, flag_attr, rebound=()):
+        self.prog, self.fn, self.upd, self.flag_attr = prog, fn, upd, flag_attr
+        self.rebound = set(rebound)  # returned locals that every caller rebinds its surrogate to
+
+    def initial(self, flow):
+        return {"$nm": frozenset({"NM"}), self.flag_attr: frozenset({"MI"})}
+
+    def default_tags(self, path):
+        return frozenset({"MI"}) if path == self.flag_attr else frozenset()
+
+    def eval(self, expr, state, flow):
+        if isinstance(expr, ast.Constant) and isinstance(expr.value, bool):
+            if expr.value:
+                return frozenset({"B:True", "MI"})
+            return frozenset({"B:False"}) | (frozenset({"MI"}) if "NM" in state.get("$nm", frozenset()) else frozenset())
+        if isinstance(expr, ast.Name) or canon(expr) == self.flag_attr:
+            return state.get(canon(expr), frozenset())
+        if isinstance(expr, ast.BoolOp) and isinstance(expr.op, ast.Or):
+            out = frozenset()
+            for v in expr.values:
+                out |= self.eval(v, state, flow) & {"MI"}
+            return out
+        return frozenset()
+
+    def eval_unpack(self, value, i, n, state, flow):
+        # gp, flag = local_gp_fitting(gp_copy, <reference point>, ...): a surrogate centred on the reference point
+        if isinstance(value, ast.Call) and canon(value.func).split(".")[-1] == "local_gp_fitting" and i == 0 and len(value.args) >= 2:
+            return frozenset({"FIT:" + canon(value.args[1])})
+        return frozenset()
+
+    def after_stmt(self, node, state, flow):
+        s = node.stmt
+        if node.kind == "stmt" and isinstance(s, ast.Assign) and len(s.targets) == 1 and isinstance(s.targets[0], ast.Name) and s.targets[0].id in self.rebound:
+            fit = {t[4:] for t in state.get(s.targets[0].id, frozenset()) if t.startswith("FIT:")}
+            moved = {t[4:] for t in state.get("$moved", frozenset()) if t.startswith("ARG:")}
+            if fit & moved:
+                # the surrogate handed back to the caller was re-selected around the moved incumbent
+                state[self.flag_attr] = state.get(self.flag_attr, frozenset()) | {"MI"}
+        exprs = [s] if node.kind == "stmt" and s is not None else ([node.expr] if node.kind == "test" and node.expr is not None else [])
+        for e in exprs:
+            for c in ast.walk(e):
+                if isinstance(c, ast.Call) and any(t is self.upd for t in self.prog.resolve_call(self.fn, c)):
+                    state["$nm"] = frozenset()
+                    state["$moved"] = frozenset({"ARG:" + canon(c.args[0])}) if c.args else frozenset()
+                    for k in list(state):
+                        if k != "$nm" and "B:True" not in state[k]:
+                            state[k] = state[k] - {"MI"}
+                    if self.flag_attr not in state:
+                        state[self.flag_attr] = frozenset()
+        return state
+
+
+def _rebound_returns(prog, R, fn):
+    """names in ``fn``'s return tuple that every call site assigns back to the variable it passed for the same-named
+    parameter (``..., gp = self._search_step_(gp)``)."""
+    rets = [n for n in ast.walk(fn.node) if isinstance(n, ast.Return) and isinstance(n.value, ast.Tuple)]
+    if not rets:
+        return set()
+    out = None
+    for r in rets:
+        names = {i: e.id for i, e in enumerate(r.value.elts) if isinstance(e, ast.Name) and e.id in fn.params}
+        ok = set()
+        sites = prog.callers_of(fn)
+        for i, nm in names.items():
+            good = bool(sites)
+            for caller, call in sites:
+                par = prog.parent(call)
+                b = bind_args(fn, call)
+                a = b.get(nm)
+                tgt = par.targets[0] if isinstance(par, ast.Assign) and par.value is call and len(par.targets) == 1 else None
+                if not (isinstance(tgt, ast.Tuple) and len(tgt.elts) == len(r.value.elts) and a is not None and canon(tgt.elts[i]) == canon(a)):
+                    good = False
+            if good:
+                ok.add(nm)
+        out = ok if out is None else out & ok
+    return out or set()
+
+
+def _recentre_rule(ctx, prog, R):
+    """After the incumbent has moved the training set must be re-selected around the new incumbent: the step that moved it
+    returns with ``self.reset_gp`` true on every path through the move (a boolean local that is true on exactly the moving
+    branches is accepted)."""
+    upd = R.incumbent_update
+    # the re-centring flag: the BADS attribute tested together with the refit decision before local_gp_fitting
+    flag_attr = None
+    for fn in (R.search_step, R.poll_step):
+        for n in ast.walk(fn.node):
+            if isinstance(n, ast.If) and any(isinstance(c, ast.Call) and canon(c.func).endswith("local_gp_fitting") for b in n.body for c in ast.walk(b)):
+                for c, pol in conjuncts(n.test, False):
+                    if not pol and isinstance(c, ast.Attribute) and isinstance(c.value, ast.Name) and c.value.id == "self":
+                        flag_attr = canon(c)
+    if flag_attr is None:
+        ctx.undecided("no boolean attribute gates the local GP re-selection in the search / poll step")
+        return
+    callers = sorted({f for f, _c in prog.callers_of(upd) if f.cls is R.bads}, key=lambda f: f.qualname)
+    for fn in callers:
+        fl = TagFlow(prog, fn, _MovePolicy(prog, fn, upd, flag_attr, _rebound_returns(prog, R, fn)))
+        st = fl.state_at_exit()
+        if st is None:
+            continue
+        tags = st.get(flag_attr, frozenset({"MI"}))
+        if "MI" in tags:
+            ctx.ok(fn, fn.node, f"{flag_attr} is true at return on every path through an incumbent move")
+        else:
+            # name the offending move
+            calls = [c for c, t in prog.calls_in(fn) if any(x is upd for x in t)]
+            ctx.fail(fn, calls[0] if calls else fn.node, f"on some path through an incumbent move the step returns without setting {flag_attr}: the next surrogate keeps a training set selected around the previous incumbent", construct=f"{flag_attr} not set after an incumbent move")
 
 
 def _selector_rules(ctx, prog, R, sel: FunctionInfo):
